@@ -407,11 +407,50 @@ def gen_stages():
     return f'{len(xforms)} transforms, {len(rules)} rules, {len(rows)} problem codes'
 
 
+# --------------------------------------------------------------------------------------------
+# TextKw: the grammar rules of parser.rs that recognise a token by its text (`tok_eq`, `id_eq`, `dt_sep`)
+#         and every literal they are called with
+# --------------------------------------------------------------------------------------------
+
+def gen_textkw():
+    src = read('compiler/parser/src/parser.rs')
+    code = re.sub(r'//[^\n]*', '', src)
+    rules = []
+    for name in ('tok_eq', 'id_eq', 'dt_sep'):
+        m = re.search(r'\brule\s+' + name + r'\s*\((.*?)\)\s*->.*?=(.*?)(?=\n\s*(?:pub\s+)?rule\s|\n\s*\n)', code, re.S)
+        if not m: raise ValueError(f'rule {name} not found in parser.rs')
+        body = m.group(2)
+        ci = 'eq_ignore_ascii_case' in body
+        exact = bool(re.search(r'\.text\s*==|==\s*\w*\.text|\.text\.as_str\(\)\s*==|\.text\.eq\(', body))
+        if not ci and not exact: raise ValueError(f'rule {name}: no text comparison recognised')
+        rules.append((name, ci and not exact))
+    lits = []
+    for name in ('tok_eq', 'id_eq', 'dt_sep'):
+        for m in re.finditer(r'\b' + name + r'\(\s*(?:TokenType::(\w+)\s*,\s*)?"((?:[^"\\]|\\.)*)"\s*\)', code):
+            lits.append((name, m.group(1) or 'Identifier', m.group(2)))
+    if not lits: raise ValueError('no textual keyword literals found')
+    seen = []
+    for x in lits:
+        if x not in seen: seen.append(x)
+    out = ['-- GENERATED by translator/gen_tables.py from compiler/parser/src/parser.rs; do not edit',
+           'namespace Gen',
+           '/-- the rules that match a token by its text, and whether they compare with `eq_ignore_ascii_case` -/',
+           'def textMatchRules : List (String × Bool) := [' + ', '.join(f'("{n}", {"true" if ci else "false"})' for n, ci in rules) + ']',
+           '/-- every literal such a rule is called with: rule, token type, text -/',
+           'def textKw : List (String × String × String) := [',
+           ',\n'.join(f'  ("{r}", "{t}", {lean_str(v)})' for r, t, v in seen),
+           ']',
+           'end Gen']
+    write_if_changed('TextKw.lean', '\n'.join(out) + '\n')
+    return f'{len(rules)} text-matching rules, {len(seen)} literals'
+
+
 TABLES = {
     'Tokens': gen_tokens,
     'Prec': gen_prec,
     'Legend': gen_legend,
     'Stages': gen_stages,
+    'TextKw': gen_textkw,
 }
 
 
